@@ -787,7 +787,7 @@ def kernel_extents(chk, repo):
                 sols.append(a_)
             storage = Arr('storage_by_solution', default=lambda k: sols[k]); storage.extent = nsol
             cv = Arr('constant_vector', default=lambda k: X.atom(f'C{k}', 'complex')); cv.extent = 3
-            out = Arr('solution'); out.extent = nsl * MAXY * ntyp
+            out = Arr('solution', default=lambda k: Opaque('nan')); out.extent = nsl * MAXY * ntyp       # the constructor of the solution object NaN-fills the buffer (R06.3)
             rad = Arr('radius', default=lambda k: X.atom(f'r{k}', 'pos')); rad.extent = nsl
             den = Arr('density', default=lambda k: X.atom(f'rho{k}', 'pos')); den.extent = nsl
             grv = Arr('gravity', default=lambda k: X.atom(f'g{k}', 'pos')); grv.extent = nsl
